@@ -346,6 +346,8 @@ static void begin_history(int fibres_n)
 	for (int i = 0; i < NF; i++) {
 		/* alternate between the dynamic and the static initialiser: they must describe the same fibre */
 		if ((hist_no + (unsigned)i) & 1) {
+			if (hist_no & 2)
+				memset(&fibres[i], 0x5a, sizeof(fibres[i])); /* junk instead of the previous history's state */
 			fibre_init(&fibres[i], body);
 		} else {
 			fibre_t tmp = FIBRE_VAR_INIT(body);
